@@ -1,6 +1,7 @@
 import DG.Proto
 import DG.JsrVersion
 import DG.Decode
+import DG.BuildProto
 /-! Line-protocol driver: one request per line on stdin, one answer per line on stdout. -/
 open DG DG.Sexp
 
@@ -100,6 +101,13 @@ def handle (st : DState) (req : Sexp) : DState × String :=
           | none => "-"
         (st, s!"{ks} text={hex text} orig={orig} size={DG.Decode.size text}")
     | _, _, _, _ => (st, "bad-op")
+  | .list [.atom "build", wx, ox, .list (.atom "roots" :: rs), .list (.atom "imports" :: is), fuel] =>
+    match DG.Build.world? wx, DG.Build.opts? ox, nats? rs, DG.Build.imports? is, nat? fuel with
+    | some w, some o, some rs, some is, some fuel =>
+      match DG.Build.build w o rs is fuel with
+      | some stf => (st, DG.Build.showSt stf)
+      | none => (st, "OUT-OF-FUEL")
+    | _, _, _, _, _ => (st, "bad-op")
   | .list [.atom "valid"] =>
     (st, match st.graph.valid with | some e => e.show | none => "ok")
   | _ => (st, "bad-op")
